@@ -18,6 +18,7 @@ type Val struct {
 	Addr Addr   // statically resolved address (for Alloc / FieldAddr / IndexAddr results)
 	Clo  *Closure
 	Prov *Prov
+	FreshArr bool // slice whose backing array was allocated in this run (never an entry-state array)
 }
 
 // Closure is a statically known closure value.
@@ -41,7 +42,8 @@ type CellAddr struct{ Key cellKey }
 type ObjAddr struct {
 	Ref   string
 	Elem  types.Type
-	Fresh bool // allocated in this run: known non-nil
+	Fresh  bool // allocated in this run
+	NonNil bool // known non-nil (fresh objects, globals)
 }
 type FieldOf struct {
 	Base   Addr
@@ -54,9 +56,10 @@ type IndexOf struct {
 	Elem types.Type
 }
 type ElemOf struct {
-	Arr  string
-	Idx  string
-	Elem types.Type
+	Arr   string
+	Idx   string
+	Elem  types.Type
+	Fresh bool
 }
 
 func (CellAddr) addr() {}
@@ -143,12 +146,13 @@ type Obligation struct {
 }
 
 type WriteSet struct {
-	heaps map[string]bool
-	cells map[cellKey]bool
+	heaps    map[string]bool
+	oldHeaps map[string]bool // heaps with at least one write to a non-fresh object
+	cells    map[cellKey]bool
 }
 
 func newWriteSet() *WriteSet {
-	return &WriteSet{heaps: map[string]bool{}, cells: map[cellKey]bool{}}
+	return &WriteSet{heaps: map[string]bool{}, oldHeaps: map[string]bool{}, cells: map[cellKey]bool{}}
 }
 
 // FuncRun is the verification run of one function.
@@ -171,6 +175,7 @@ type FuncRun struct {
 	inlineStack []*ssa.Function
 	allocTop string
 	scoutingHead *ssa.BasicBlock
+	backStates []*State
 	spawned *WriteSet
 	sharedAtomics bool
 	stats map[string]int
@@ -313,6 +318,9 @@ func (fr *FuncRun) errorf(format string, args ...interface{}) {
 func (fr *FuncRun) noteHeapWrite(h string) {
 	for _, ws := range fr.wsStack {
 		ws.heaps[h] = true
+		if !fr.curWriteFresh {
+			ws.oldHeaps[h] = true
+		}
 	}
 	fr.allWrites.heaps[h] = true
 	if fr.curWriteFresh {
@@ -461,6 +469,9 @@ func (fr *FuncRun) merge(ins []*State) *State {
 		if same {
 			v := vals[0]
 			for _, o := range vals[1:] {
+				if !o.FreshArr {
+					v.FreshArr = false
+				}
 				if o.Clo != v.Clo {
 					v.Clo = nil
 				}
@@ -475,7 +486,13 @@ func (fr *FuncRun) merge(ins []*State) *State {
 		for i, v := range vals {
 			ts[i] = v.T
 		}
-		out.cells[k] = Val{T: fr.defAlways(vals[0].S, iteChain(rs, ts), "m"), S: vals[0].S}
+		allFresh := true
+		for _, v := range vals {
+			if !v.FreshArr {
+				allFresh = false
+			}
+		}
+		out.cells[k] = Val{T: fr.defAlways(vals[0].S, iteChain(rs, ts), "m"), S: vals[0].S, FreshArr: allFresh}
 	}
 	// defers: take the longest common prefix; all must agree
 	out.defers = append([]*deferRec{}, ins[0].defers...)
